@@ -262,7 +262,7 @@ def run(ctx, res):
         d.call("Duration.encode", F["Duration.encode"], v, ("enc", "subsecond"))
     # strings of the xsd:duration lexical space the encoder itself never writes: absent components,
     # leading zeros, fractions of 1..12 digits (a timedelta keeps the first six)
-    for _ in range(400 if quick else 12000):
+    for _ in range(400 if quick else 300000):
         num = lambda hi: rng.choice(["0", "00", "1", "07", "59", "60", "99", str(rng.randint(0, hi))])
         day = rng.choice(["", "", num(400) + "D"])
         tparts = [rng.choice(["", num(99) + "H"]), rng.choice(["", num(99) + "M"])]
